@@ -298,6 +298,7 @@ func runFileSink(rc *RunCtx, prop string, crash bool, faults bool) {
 		})
 	}
 	if crash {
+		rc.KillOnExit = true
 		sim.CrashAtStep = 1 + tp.Choose(40*len(events)+20, "crashstep")
 		desc.CrashStep = sim.CrashAtStep
 	}
